@@ -49,6 +49,13 @@ def update_ff( blk ):
   NamedObject._elaborate_stack[-1]._update_ff( blk )
   return blk
 
+def _aug_op_str( op ):
+  """ '+=' for the ast.Add() of an augmented assignment """
+  return { ast.Add: '+', ast.Sub: '-', ast.Mult: '*', ast.Div: '/',
+           ast.FloorDiv: '//', ast.Mod: '%', ast.Pow: '**', ast.RShift: '>>',
+           ast.BitAnd: '&', ast.BitOr: '|', ast.BitXor: '^',
+         }.get( type(op), type(op).__name__ ) + '='
+
 class ComponentLevel2( ComponentLevel1 ):
 
   #-----------------------------------------------------------------------
@@ -257,7 +264,7 @@ class ComponentLevel2( ComponentLevel1 ):
                 raise UpdateFFBlockWriteError( s, func, '@=', nodelist[0].lineno,
                   "Fix the '@=' assignment with '<<='")
 
-              raise UpdateFFBlockWriteError( s, func, op+'=', nodelist[0].lineno,
+              raise UpdateFFBlockWriteError( s, func, _aug_op_str( op ), nodelist[0].lineno,
                 "Fix the signal assignment with '<<='")
 
 
@@ -282,7 +289,7 @@ class ComponentLevel2( ComponentLevel1 ):
               if isinstance( op, ast.LShift ):
                 raise UpdateBlockWriteError( s, func, '<<=', nodelist[0].lineno,
                   "Fix the '<<=' assignment with '@='")
-              raise UpdateBlockWriteError( s, func, op+'=', nodelist[0].lineno,
+              raise UpdateBlockWriteError( s, func, _aug_op_str( op ), nodelist[0].lineno,
                 "Fix the signal assignment with '@='")
 
         # This is a function call without "s." prefix, check func list
